@@ -112,6 +112,13 @@ def run_case(case, rec):
             d = diff(o1, o2)
             if d:
                 _classify(rec, m, S, model_exp, raw2, d, 'adding outsiders ' + str([universe.spec(u[n]) for n in outsiders]))
+            # ---- unrestricted default mode on the full database: navigation and relation traversal from an entity stay
+            # within that entity's own lexicon and its extension family (the model's default-mode view)
+            if case['sel'] % 5 == 0:
+                from vf.obscheck import compare
+                rec.event('default-mode.compared')
+                compare(rec, m, None, default=True, label='C04 default mode',
+                        quirks={'tags-unowned': 'form-tags-unowned', 'ext-forms': 'unselected-extension-forms', 'nav-by-id': None})
             # ---- outsiders go (extensions before their bases happens automatically)
             gone = list(outsiders)
             r.shuffle(gone)
